@@ -280,12 +280,25 @@ fn mask(dst: &[u8], iv: &[u8], header: &[u8], body: &[u8]) -> Vec<u8> {
     d
 }
 
+/// Masking IVs: random, and (one in four) with a counter part about to carry - the low byte, the
+/// low 32 bits or the low 64 bits within a few blocks of rolling over (the header spans 3-20 blocks).
+fn gen_iv(rng: &mut Rng) -> Vec<u8> {
+    let mut iv = rng.bytes(16);
+    match rng.below(12) {
+        0 => { iv[15] = 0xff - rng.below(4) as u8; }
+        1 => { for b in &mut iv[12..15] { *b = 0xff; } iv[15] = 0xff - rng.below(24) as u8; }
+        2 => { for b in &mut iv[8..15] { *b = 0xff; } iv[15] = 0xff - rng.below(24) as u8; }
+        _ => {}
+    }
+    iv
+}
+
 pub fn gen_case(rng: &mut Rng, _tier: &str, _profile: &str, stats: &mut Stats) -> Vec<String> {
     let mut ops = Vec::new();
     let dst = rng.bytes(32);
     // 1. structured encodes at boundary sizes
     for _ in 0..3 {
-        let iv = rng.bytes(16);
+        let iv = gen_iv(rng);
         let nonce = rng.bytes(12);
         let (kind, authlen) = gen_kind(rng, stats);
         let fixed = 16 + 23 + authlen;
@@ -313,7 +326,7 @@ pub fn gen_case(rng: &mut Rng, _tier: &str, _profile: &str, stats: &mut Stats) -
     }
     // 2. decodes: hand-built unmasked headers with mutated fields
     for _ in 0..4 {
-        let iv = rng.bytes(16);
+        let iv = gen_iv(rng);
         let (kind, _) = gen_kind(rng, stats);
         let auth: Vec<u8> = {
             let f: Vec<&str> = kind.split(':').collect();
